@@ -627,6 +627,13 @@ pub fn c10(h: &Hist, s: u8, v: &mut Verdicts) {
         let end_ret = if t.uinv.first().copied().unwrap_or(INF) < sr.inv { t.uret.first().copied().unwrap_or(INF) } else { sr.ret };
         let end_name = if t.uinv.first().copied().unwrap_or(INF) < sr.inv { "unsubscribe()" } else { "stop()" };
         let delivered: HashMap<u32, u64> = h.evs.iter().filter(|e| e.k == K::SEnd && e.idx == si.id).map(|e| (e.a, e.seq)).collect();
+        let settled = settled_stop_ret(h, s);
+        for e in &dl {
+            if e.seq > settled {
+                v.fail("C10", format!("store {}: channeled subscriber {} was called for {} at seq {} after stop() had returned at seq {} (stop() did not wait for what was queued for it)", s, si.id, id_str(e.a), e.seq, settled));
+                break;
+            }
+        }
         for e in &dl {
             if e.seq > end_ret {
                 v.fail("C10", format!("store {}: channeled subscriber {} was called for {} at seq {} after {} had returned at seq {}", s, si.id, id_str(e.a), e.seq, end_name, end_ret));
